@@ -167,7 +167,7 @@ theorem arm_endHtml {tag : Tag} {s : State} (c : Ctx s) :
   · refine ctx_step c1 ((sat_checkBodyEnd c1.hi.open_el).mono (fun _ _ h => BK.of_qf c1.hi c1.hr h)) ?_
     intro _ s2 c2
     refine sat_pure ?_
-    exact ⟨c2.hi, c2.sinv_to .afterBody (bk_refl c2.hi c2.hr).b trivial rfl (by decide) (by decide), rfl⟩
+    exact ⟨c2.hi, c2.sinv_to .afterBody (bk_refl c2.hi c2.hr).b trivial rfl (by decide) (by decide), rfl, by decide⟩
   · refine ctx_step c1 (bk_parseError c1.hi c1.hr) ?_
     intro _ s2 c2
     refine sat_pure ?_
